@@ -437,17 +437,20 @@ theorem capacity_ok_iff_partial (exempt : Bool) (ins : List Nat) (outs : List Ou
         rw [ih _ h1, List.sum_cons, Nat.add_assoc]
       · have : ¬ acc + (c + rest.sum) < Tx.U64 := by omega
         simp [h1, this]
-  have hout : ∀ (l : List Output) (i : Nat), checkOutputs i l = .ok ↔ ∀ o ∈ l, OutputOk o := by
+  have hl : ∀ (l : List (Option Bool)) (i : Nat), checkLacks i l = .ok ↔ ∀ x ∈ l, x = some false := by
     intro l
     induction l with
-    | nil => intro i; simp [checkOutputs]
-    | cons o rest ih =>
+    | nil => intro i; simp [checkLacks]
+    | cons x rest ih =>
       intro i
-      rw [checkOutputs]
-      simp only [List.mem_cons, forall_eq_or_imp, OutputOk]
-      cases hc : lackOfCapacity o with
-      | none => simp
-      | some b => cases b <;> simp [ih, OutputOk]
+      cases x with
+      | none => simp [checkLacks]
+      | some b => cases b <;> simp [checkLacks, ih]
+  have hout : ∀ (l : List Output) (i : Nat), checkOutputs i l = .ok ↔ ∀ o ∈ l, OutputOk o := by
+    intro l i
+    unfold checkOutputs OutputOk
+    rw [hl]
+    simp
   unfold capacityVerify
   by_cases he : exempt = true
   · simp [he, hout]
